@@ -96,6 +96,19 @@ func ruleLIT1(p *Program) *RuleResult {
 			}
 		}
 	}
+	if thoroughTier {
+		// all sequences of four tokens over the escapes and the characters that interact with them
+		small := []string{`\'`, "\\" + "\\", `\/`, `\n`, "\\" + "u00e9", "\\" + "u20AC", "u", "\u00e9", "'", "\\"}
+		for _, a := range small {
+			for _, b := range small {
+				for _, c := range small {
+					for _, d := range small {
+						pool = append(pool, a+b+c+d)
+					}
+				}
+			}
+		}
+	}
 	// the visitor hands over the token text including its quotes
 	bad := 0
 	perToken := map[string]bool{}
